@@ -8,7 +8,7 @@
    F. the link with Sem/Valid.v (valid_for_read)
    G. the Write command: a rejected write changes nothing; contextual tuples *)
 From OFGA Require Import Sem.ValidWrite Codec.TupleStrProofs.
-From Coq Require Import ZifyBool ZifyN ZifyNat Lia.
+From Coq Require Import ZifyBool ZifyN ZifyNat Lia Permutation.
 Open Scope N_scope.
 
 (* ------------------------------------------------------------------------------------------ *)
@@ -1110,6 +1110,42 @@ Proof.
   - apply in_or_app. right. left. reflexivity.
   - exact H.
   - split; assumption.
+Qed.
+
+(* the verdict of the per-tuple stage of a request is the CONJUNCTION of the individual verdicts,
+   hence independent of the order of the tuples *)
+Lemma forallb_perm {A : Type} (f : A -> bool) l l' : Permutation.Permutation l l' -> forallb f l = forallb f l'.
+Proof.
+  induction 1 as [|x l l' _ IH|x y l|l l' l'' _ IH1 _ IH2]; cbn [forallb].
+  - reflexivity.
+  - rewrite IH. reflexivity.
+  - destruct (f x), (f y); reflexivity.
+  - rewrite IH1. exact IH2.
+Qed.
+
+Definition tuples_pass (e : env) (m : model) (cds : cdefs) (limit : N) (deletes : list skey) (writes : list rtuple) : bool :=
+  forallb (valid_for_write e m cds limit) writes && forallb (fun k => is_valid_user (k_user k)) deletes.
+
+Theorem batch_validity_is_conjunction e m cds limit maxw deletes writes :
+  (deletes <> [] \/ writes <> []) ->
+  (tuples_pass e m cds limit deletes writes = false <->
+   fst (validate_request e m cds limit maxw deletes writes) = WValidation).
+Proof.
+  intro Hne. unfold tuples_pass, validate_request.
+  destruct (forallb (valid_for_write e m cds limit) writes);
+    destruct (forallb (fun k => is_valid_user (k_user k)) deletes); cbn [andb negb].
+  - destruct deletes, writes; try (destruct Hne; congruence);
+      repeat match goal with |- context [if ?b then _ else _] => destruct b end; cbn [fst]; split; intro H; congruence.
+  - destruct deletes, writes; try (destruct Hne; congruence); cbn [fst]; split; reflexivity.
+  - destruct deletes, writes; try (destruct Hne; congruence); cbn [fst]; split; reflexivity.
+  - destruct deletes, writes; try (destruct Hne; congruence); cbn [fst]; split; reflexivity.
+Qed.
+
+Theorem batch_validity_order_free e m cds limit deletes deletes' writes writes' :
+  Permutation.Permutation writes writes' -> Permutation.Permutation deletes deletes' ->
+  tuples_pass e m cds limit deletes writes = tuples_pass e m cds limit deletes' writes'.
+Proof.
+  intros Hw Hd. unfold tuples_pass. rewrite (forallb_perm _ _ _ Hw), (forallb_perm _ _ _ Hd). reflexivity.
 Qed.
 
 (* ------------------------------------------------------------------------------------------ *)
